@@ -33,7 +33,7 @@ type UploadCase struct {
 	Fam   string `json:"fam"`
 	Len   int    `json:"len"`
 	Limit int    `json:"limit"` // maxReceiveMessageSize = chunk size
-	Mode  string `json:"mode"`  // plain | dataerr | gzip | onebyte
+	Mode  string `json:"mode"`  // plain | dataerr | gzip | onebyte | broken (the body breaks off inside a chunk with an error) | brokendata (... reported together with the last bytes)
 }
 type RetainEv struct {
 	Ev        string `json:"ev"`
@@ -46,6 +46,7 @@ type RetainEv struct {
 	Crash     string `json:"crash"`
 	Len       int    `json:"len"`
 	Limit     int    `json:"limit"`
+	End       string `json:"end"` // how the handler's receive loop ended: eof | error
 	Mode      string `json:"mode"`
 	// what a stats handler installed on the mux saw of the call (uploads): one in-payload event per message the
 	// handler received, one out-payload event per reply
@@ -152,7 +153,34 @@ type uploadRun struct {
 	want   []byte
 	crash  string
 	status int
+	end    string
 	stats  uploadStats
+}
+
+// brokenReader delivers the first n bytes and then fails: the connection broke in the middle of the upload.
+type brokenReader struct {
+	b        []byte
+	n        int
+	withData bool // the error comes together with the last bytes delivered
+}
+
+func (r *brokenReader) Read(p []byte) (int, error) {
+	if r.n <= 0 {
+		return 0, io.ErrUnexpectedEOF
+	}
+	k := len(p)
+	if k > r.n {
+		k = r.n
+	}
+	if k > 7 {
+		k = 7 // small reads: the break falls inside a chunk the codec is still collecting
+	}
+	copy(p, r.b[:k])
+	r.b, r.n = r.b[k:], r.n-k
+	if r.n == 0 && r.withData {
+		return k, io.ErrUnexpectedEOF
+	}
+	return k, nil
 }
 
 func runUpload(c UploadCase) *uploadRun {
@@ -178,8 +206,10 @@ func runUpload(c UploadCase) *uploadRun {
 			m := dynamicpb.NewMessage(md.Input())
 			if err := ss.RecvMsg(m); err != nil {
 				if err == io.EOF {
+					u.end = "eof"
 					break
 				}
+				u.end = "error"
 				return err
 			}
 			d := m.Get(md.Input().Fields().ByName("data")).Bytes()
@@ -202,6 +232,8 @@ func runUpload(c UploadCase) *uploadRun {
 		rd = iotest.DataErrReader(bytes.NewReader(body)) // last bytes together with io.EOF, like net/http's HTTP/1 body
 	case "onebyte":
 		rd = iotest.OneByteReader(bytes.NewReader(body))
+	case "broken", "brokendata":
+		rd = &brokenReader{b: body, n: len(body) - 1 - len(body)/3, withData: c.Mode == "brokendata"}
 	case "gzip":
 		rd = bytes.NewReader(gz(body))
 		req.Header.Set("Content-Encoding", "gzip")
@@ -222,7 +254,7 @@ func runUpload(c UploadCase) *uploadRun {
 }
 
 func (u *uploadRun) event() RetainEv {
-	ev := RetainEv{Ev: "Retain", Case: u.c.ID, Chunks: len(u.chunks), Stable: true, Crash: u.crash, Len: u.c.Len, Limit: u.c.Limit, Mode: u.c.Mode,
+	ev := RetainEv{Ev: "Retain", Case: u.c.ID, Chunks: len(u.chunks), Stable: true, Crash: u.crash, Len: u.c.Len, Limit: u.c.Limit, Mode: u.c.Mode, End: u.end,
 		InPayloads: u.stats.in, OutPayloads: u.stats.out, Begins: u.stats.begin, Ends: u.stats.end}
 	var all []byte
 	for _, ch := range u.chunks {
